@@ -112,9 +112,11 @@ def gen(ctx):
             c = tc.gen_config(rng, len(cfgs), dim=dim, inner=ik, outer=ok, varying=False, steady=True, rough=False,
                               const_in_time=True, nsteps=1, substep=rng.choice([1, 2]))
             c["fluid"] = tc.gen_fluid(rng, False)
+            keep_z = dim <= 2 and rng.random() < 0.5       # a slice model reads height-varying data at its own plane
             for side in ("inner", "outer"):
                 axisym_bc(rng, c[side])
-                zuniform_bc(c[side])
+                if not keep_z:
+                    zuniform_bc(c[side])
             c["family"] = "steady"
             cfgs.append(c)
             # the same problem marched in time for a long while
